@@ -133,6 +133,12 @@ def verify_uri(
         raise ValueError(f"Wrong uri_type: {uri_type}")
 
     req_redirect_uri = unquote(req_redirect_uri_quoted)
+    # urlparse silently drops TAB/CR/LF and leading control characters: what would be matched is
+    # then not what the user agent is sent to
+    if req_redirect_uri != req_redirect_uri.strip() or any(
+        ord(c) < 0x20 or ord(c) == 0x7F for c in req_redirect_uri
+    ):
+        raise URIError("Contains control characters or surrounding white space")
     req_redirect_uri_obj = urlparse(req_redirect_uri)
     if req_redirect_uri_obj.fragment:
         raise URIError("Contains fragment")
